@@ -22,7 +22,10 @@
 (*            [k |-> "move", via, id, tx, ty, q]  translate by (tx, ty), then rotate by q quarter turns   *)
 (*                 about the origin; via in {"obstacle", "scenario", "prediction"}; id = 0: all obstacles *)
 (*            [k |-> "set_trajectory", id, states] | [k |-> "set_shape", id, shape]                        *)
-(*            [k |-> "update_prediction", id, pred]                                                        *)
+(*            [k |-> "update_prediction", id, pred] | [k |-> "set_prediction", id, pred] (assignment)      *)
+(*            [k |-> "update_initial_state", id, state, pred]  the obstacle is advanced to a new initial  *)
+(*                 state (the old prediction is dropped), optionally followed by update_prediction(pred)  *)
+(*            [k |-> "set_initial_state", id, state]  assignment obstacle.initial_state = state           *)
 EXTENDS Integers, Sequences, FiniteSets, TLC
 
 Range(s) == {s[i] : i \in DOMAIN s}
@@ -126,11 +129,17 @@ MovePred(m, pr) ==
 MoveObstacle(o, m) ==
     IF m.via = "prediction" \/ o.role = "phantom" THEN [o EXCEPT !.pred = MovePred(m, @)]       \* the initial state stays
     ELSE [o EXCEPT !.init = MoveState(m, @), !.pred = MovePred(m, @)]
+RePred(pr, t0) ==      \* the gap is a derived quantity: first step of the prediction relative to the (new) initial step
+    CASE pr.k = "traj" -> [pr EXCEPT !.g = pr.states[1].t - t0 - 1]
+      [] pr.k = "set"  -> [pr EXCEPT !.g = pr.occs[1].t - t0 - 1]
+      [] OTHER -> pr
 Modify(o, m) ==
     CASE m.k = "move" -> MoveObstacle(o, m)
       [] m.k = "set_trajectory" -> [o EXCEPT !.pred = [k |-> "traj", g |-> m.states[1].t - o.t0 - 1, states |-> m.states]]
       [] m.k = "set_shape" -> [o EXCEPT !.pred = [k |-> "traj", g |-> o.pred.g, states |-> o.pred.states, shape |-> m.shape]]
-      [] m.k = "update_prediction" -> [o EXCEPT !.pred = m.pred]
+      [] m.k \in {"update_prediction", "set_prediction"} -> [o EXCEPT !.pred = RePred(m.pred, o.t0)]
+      [] m.k = "update_initial_state" -> [o EXCEPT !.t0 = m.state.t, !.init = m.state, !.pred = RePred(m.pred, m.state.t)]
+      [] m.k = "set_initial_state" -> [o EXCEPT !.t0 = m.state.t, !.init = m.state, !.pred = RePred(@, m.state.t)]
 Targets(o, m) == m.id = 0 \/ m.id = o.id
 ModifyS(S, m) == [i \in DOMAIN S |-> IF Targets(S[i], m) THEN Modify(S[i], m) ELSE S[i]]
 MoveRegion(m, x) ==    \* the rigid image of a placed region (doubled coordinates)
